@@ -1,5 +1,12 @@
 package main
 
+import (
+	"go/token"
+	"sort"
+
+	"golang.org/x/tools/go/ssa"
+)
+
 func init() { properties["C18"] = propC18 }
 
 // C18: I/O faults and truncation surface as errors with accurate byte counts.
@@ -30,7 +37,101 @@ func propC18(w *World, r *Report) {
 	RunErrControls(r)
 	ef.RunByteCount(mod)
 	RunSortedBeforeIndexed(w, r, mod)
+	RunWriteTerm(w, r)
 	r.Floor("errdrop", 150)
 	r.Floor("bytecount", 8)
 	r.Floor("sortfirst", 5)
+}
+
+// RunWriteTerm: every loop on the writing side terminates.  "If the
+// destination fails ... writing reports an error instead of succeeding or
+// panicking" presupposes that the call returns: a retry loop around a Write
+// that makes no progress, or an encoder loop without a decreasing measure,
+// hangs instead.  Same termination engine as for the decoders (E2), without
+// the work bound (the writers' work is bounded by the font value, which is
+// trusted input).
+func RunWriteTerm(w *World, r *Report) {
+	r.Rule("loopterm (writers): every natural loop in the library functions reachable from (*Font).Write, WriteTrueTypePDF, WriteOpenTypeCFFPDF, (*cff.Font).Write and header.Write (including Write methods of wrappers handed to header.Write) has a recognised termination argument: a counter with steps of one sign against a loop-invariant bound (no wrap for narrow counters), a slice that is shown to get shorter, a range; anything else needs a reviewed argument")
+	var entries []*ssa.Function
+	for _, n := range []string{"(*sfnt.Font).Write", "(*sfnt.Font).WriteTrueTypePDF", "(*sfnt.Font).WriteOpenTypeCFFPDF", "(*cff.Font).Write", "header.Write"} {
+		if fn := w.Func(n); fn != nil {
+			entries = append(entries, fn)
+		} else {
+			r.Fatal("anchor function %q does not resolve", n)
+		}
+	}
+	var fns []*ssa.Function
+	for fn := range w.libReach(entries) {
+		fns = append(fns, fn)
+	}
+	sort.Slice(fns, func(i, j int) bool { return fnName(fns[i]) < fnName(fns[j]) })
+	for _, a := range boundsAssumptions {
+		r.Assumes(a)
+	}
+	r.Scope["writer_functions"] = len(fns)
+	r.Conds["encodefloat-digits"] = condDigitsFromFormatFloat(w, "cff.encodeFloat")
+	runLoopTerm(w, r, newBoundsRun(w), fns, false)
+	r.Floor("loopterm", 250)
+}
+
+// condDigitsFromFormatFloat: every loop of fn that divides an integer while it
+// is divisible by ten starts from the result of strconv.Atoi applied to a
+// piece of a strconv.FormatFloat result (a digit string of a finite positive
+// number, hence not zero), not from floating-point scaling.
+func condDigitsFromFormatFloat(w *World, name string) func() (bool, string) {
+	return func() (bool, string) {
+		fn := w.Func(name)
+		if fn == nil {
+			return false, name + " does not resolve"
+		}
+		found := false
+		for _, l := range naturalLoops(fn) {
+			for _, in := range l.head.Instrs {
+				ph, ok := in.(*ssa.Phi)
+				if !ok {
+					break
+				}
+				if !isIntType(ph.Type()) || !usedInRem(ph) {
+					continue
+				}
+				for i, e := range ph.Edges {
+					if l.body[l.head.Preds[i]] {
+						continue
+					}
+					found = true
+					sl := backSlice(e)
+					atoi, ff := false, false
+					for v := range sl {
+						if c, ok := v.(*ssa.Call); ok {
+							switch staticCalleeName(c.Common()) {
+							case "strconv.Atoi":
+								atoi = true
+							case "strconv.FormatFloat":
+								ff = true
+							}
+						}
+					}
+					if !atoi || !ff {
+						return false, "the value that enters the loop at " + w.Pos(l.head.Instrs[0].Pos()) + " is not strconv.Atoi of a piece of strconv.FormatFloat"
+					}
+				}
+			}
+		}
+		if !found {
+			return false, "no loop over an integer found in " + name
+		}
+		return true, ""
+	}
+}
+
+func usedInRem(v ssa.Value) bool {
+	if v.Referrers() == nil {
+		return false
+	}
+	for _, ref := range *v.Referrers() {
+		if bo, ok := ref.(*ssa.BinOp); ok && bo.Op == token.REM && bo.X == v {
+			return true
+		}
+	}
+	return false
 }
